@@ -55,10 +55,13 @@ PERIODIC = {"dihedral": 360.0, "polarPhi": 360.0, "spinAngle": 360.0, "eulerPhi"
 # configuration text / model tokens of one component
 # ---------------------------------------------------------------------------------------------
 
-def group_block(key, listing, extra=None):
+def group_block(key, listing, extra=None, select=None):
     if isinstance(listing, dict):      # a dummy atom at a fixed position
         return ["    %s {" % key, "      dummyAtom " + vec(listing["dummy"]), "    }"]
-    s = ["    %s {" % key, "      atomNumbers " + " ".join(str(i) for i in listing)]
+    if select is not None:             # the same listing spelled with several selection keywords
+        s = ["    %s {" % key] + ["      " + l for l in select]
+    else:
+        s = ["    %s {" % key, "      atomNumbers " + " ".join(str(i) for i in listing)]
     for l in (extra or []):
         s.append("      " + l)
     s.append("    }")
@@ -102,9 +105,15 @@ def comp_block(c):
         s.append("    refPositions " + " ".join(vec(v) for v in p["ref"]))
     if comp == "eigenvector":
         s.append("    vector " + " ".join(vec(v) for v in p["vector"]))
+        if p.get("difference"):
+            s.append("    differenceVector on")
+        if p.get("normalize"):
+            s.append("    normalizeVector on")
     if comp in ("gspath", "gzpath", "aspath", "azpath"):
         for k, f in enumerate(p["files"]):
             s.append("    refPositionsFile%d %s" % (k + 1, f))
+        if p.get("lambda") is not None:
+            s.append("    lambda " + g17(p["lambda"]))
     if comp == "rmsd" and p.get("reffile"):
         s.append("    refPositionsFile " + p["reffile"])
     if comp == "rmsd":
@@ -118,14 +127,17 @@ def comp_block(c):
     else:
         keys = GROUPKEYS[comp]
         for k, listing in zip(keys, c["groups"]):
-            s += group_block(k, listing, (c.get("group_extra") or {}).get(k))
+            s += group_block(k, listing, (c.get("group_extra") or {}).get(k), (c.get("group_select") or {}).get(k))
     s.append("  }")
     return s
 
 
 def config_of(cases, name="c"):
     """one variable made of the given component cases (optionally nested in a linearCombination component)"""
-    s = ["colvar {", "  name " + name]
+    s = []
+    if cases[0].get("indexfile"):
+        s.append("indexFile " + cases[0]["indexfile"])
+    s += ["colvar {", "  name " + name]
     wrap = cases[0].get("wrap")
     if wrap:
         s.append("  %s {" % wrap)
@@ -342,3 +354,77 @@ def gen_cell(r, generic=False):
     if generic and r.random() < 0.5:
         return [r.choice([9.0, 10.0, 12.5, 11.3, 14.0]) for _ in range(3)]
     return [r.choice([8.0, 16.0, 32.0]) for _ in range(3)]
+
+
+def respell(r, c, sdir, tag):
+    """rewrite the atom selections of case c with the other selection keywords (several atomNumbers lines, indexGroup with
+    an index file, atomNumbersRange, atomsOfGroup of a named group); c["groups"] becomes the listing in the order in which
+    atom_group::parse adds the atoms: atomsOfGroup, atomNumbers (each line), indexGroup, atomNumbersRange (each line)"""
+    comp = c["comp"]
+    if comp == "hBond" or any(isinstance(l, dict) for l in c["groups"]):
+        return False
+    natoms = len(c["atoms"])
+    sel = {}; ndx = []; newgroups = []
+    keys = GROUPKEYS[comp]
+    named = None
+    for gi, listing in enumerate(c["groups"]):
+        key = keys[gi]
+        ids = dedup(listing)
+        lines = []; model = []
+        if gi == 0 and len(c["groups"]) > 1 and r.random() < 0.4:
+            lines.append("name c02named"); named = list(ids)
+        if gi > 0 and named is not None and r.random() < 0.6 and comp not in ("coordNum", "distanceInv", "groupCoord", "distancePairs"):
+            lines.append("atomsOfGroup c02named"); model += named
+        rest = list(listing)
+        r.shuffle(rest)
+        # some consecutive atoms may be selected ONLY through atomNumbersRange
+        only_range = None
+        pres = sorted(set(rest))
+        runs0 = [(a, b) for a, b in zip(pres, pres[1:]) if b == a + 1]
+        if runs0 and len(pres) > 2 and r.random() < 0.5:
+            only_range = r.choice(runs0)
+            rest = [x for x in rest if x not in only_range]
+        k1 = r.randint(1, len(rest))
+        part1, rest = rest[:k1], rest[k1:]
+        lines.append("atomNumbers " + " ".join(map(str, part1))); model += part1
+        if rest and r.random() < 0.5:
+            k2 = r.randint(1, len(rest)); part2, rest = rest[:k2], rest[k2:]
+            lines.append("atomNumbers " + " ".join(map(str, part2))); model += part2
+        if rest and r.random() < 0.7:
+            gname = "g%s%d" % (tag.replace("_", ""), gi)
+            ndx.append("[ %s ]\n%s\n" % (gname, " ".join(map(str, rest))))
+            lines.append("indexGroup " + gname); model += rest; rest = []
+        if rest:
+            lines.append("atomNumbers " + " ".join(map(str, rest))); model += rest
+            # keep parse order: all atomNumbers lines come before indexGroup in the model listing
+        # a range over atoms already selected (pure duplicates) or extending the group when that keeps the case valid
+        present = sorted(set(model))
+        runs = [(a, b) for a, b in zip(present, present[1:]) if b == a + 1]
+        if only_range is not None:
+            lines.append("atomNumbersRange %d-%d" % only_range)
+        if runs and r.random() < 0.5:
+            a, b = r.choice(runs)
+            lines.append("atomNumbersRange %d-%d" % (a, b)); model += list(range(a, b + 1))
+        # model listing in parse order: atomsOfGroup, then every atomNumbers line, then indexGroup, then ranges
+        of = [l for l in lines if l.startswith("atomsOfGroup")]
+        nums = [l for l in lines if l.startswith("atomNumbers ")]
+        idx = [l for l in lines if l.startswith("indexGroup")]
+        rng = [l for l in lines if l.startswith("atomNumbersRange")]
+        m2 = []
+        if of:
+            m2 += named
+        for l in nums:
+            m2 += [int(x) for x in l.split()[1:]]
+        for l in idx:
+            m2 += [int(x) for x in ndx[-1].split("\n")[1].split()]
+        for l in rng:
+            a, b = l.split()[1].split("-"); m2 += list(range(int(a), int(b) + 1))
+        sel[key] = lines
+        newgroups.append(m2)
+    c["group_select"] = sel
+    c["groups"] = newgroups
+    if ndx:
+        f = "%s/%s.ndx" % (sdir, tag)
+        open(f, "w").write("".join(ndx))
+        c["indexfile"] = f
+    return True
